@@ -125,13 +125,40 @@ theorem getReq_setReq_oob (t : Tcp.State) (h h' : Nat) (f : Req → Req) (hge : 
     simp [Tcp.State.getReq, Tcp.State.setReq, List.getD_eq_getElem?_getD, List.getElem?_mapIdx, this]
   · exact getReq_setReq_other t h h' f hh
 
+theorem le_ite_of (c : Prop) [Decidable c] (a b k : Nat) (ha : k ≤ a) (hb : k ≤ b) : k ≤ (if c then a else b) := by
+  split <;> assumption
+
+/-- every non-zero service status becomes an error code (signing service) -/
+theorem convertStatus_ge (st : Nat) (h : st ≠ 0) : 0x400 ≤ convertStatus st := by
+  unfold convertStatus
+  rw [if_neg h]
+  repeat (first | apply le_ite_of | decide)
+
+/-- every non-zero service status becomes an error code (extending service) -/
+theorem convertStatusExt_ge (st : Nat) (h : st ≠ 0) : 0x400 ≤ convertStatusExt st := by
+  unfold convertStatusExt
+  rw [if_neg h]
+  repeat (first | apply le_ite_of | decide)
+
+/-- for either service the converted status is "no error" exactly for status 0 -/
+theorem conv_eq_zero_iff (s : State) (st : Nat) : s.conv st = 0 ↔ st = 0 := by
+  constructor
+  · intro h
+    apply Classical.byContradiction
+    intro hne
+    have h1 := convertStatus_ge st hne
+    have h2 := convertStatusExt_ge st hne
+    unfold State.conv at h
+    split at h <;> omega
+  · intro h; subst h; unfold State.conv; split <;> rfl
+
 /-- what `handleResponse` does, case by case -/
 theorem handleResp_cases (s : State) (id st : Nat) :
     handleResp s id st = s ∨
     ∃ h, s.slots.getD (id % 2 ^ 32) none = some h ∧ s.ids.getD h 0 = id ∧
       (s.tcp.getReq h).state = .waitResponse ∧ id % 2 ^ 32 < s.size ∧
       (handleResp s id st).tcp = s.tcp.setReq h (fun r =>
-        { r with state := if convertStatus st ≠ 0 then .error (convertStatus st) else .received }) := by
+        { r with state := if s.conv st ≠ 0 then .error (s.conv st) else .received }) := by
   unfold handleResp
   simp only
   by_cases h1 : s.size ≤ id % 2 ^ 32
@@ -160,7 +187,7 @@ theorem handleResp_matched (s : State) (id st : Nat) (h : Nat)
     s.slots.getD (id % 2 ^ 32) none = some h ∧ s.ids.getD h 0 = id ∧
     (s.tcp.getReq h).state = .waitResponse ∧ id % 2 ^ 32 < s.size ∧
     ((handleResp s id st).tcp.getReq h).state =
-      (if convertStatus st ≠ 0 then .error (convertStatus st) else .received) := by
+      (if s.conv st ≠ 0 then .error (s.conv st) else .received) := by
   rcases handleResp_cases s id st with heq | ⟨h', hs, hid, hst, hlt, htcp⟩
   · rw [heq] at hne; exact absurd rfl hne
   · rw [htcp] at hne ⊢
